@@ -1120,3 +1120,4 @@ LEVEL_NOTE = ("Trusted: Lean kernel, axioms <= {propext, Classical.choice, Quot.
               "character separators; exceptions are 'rejected'.")
 TECHNIQUE = "Lean 4 proof (structural induction; parser stack invariant; generated-table side conditions by decide) + correspondence check against the real exporters/constructors"
 RULE = RULE + ' Fourth session: for a third of the attr_dict requests the requested attributes are read-only properties of a user subclass (backed by private fields); one tree beyond 1000 nodes.'
+RULE = RULE + ' Fifth session: print_tree(attr_list=...) twice with an attribute update in between: every line carries the value current at that moment.'
